@@ -1415,3 +1415,106 @@ def none_then_attribute(repo, modules):
                                     % (name, a.lineno, ast.unparse(conds[0][0])[:50], ast.unparse(x), name)))
                         break
     return out, n
+
+
+def identity_test_on_option(repo, modules):
+    """`options.X is False` / `node.wrap.fortran is False`: an option written as 0 in the YAML file (or given as
+    --option X=0, which is read as a number) is false for every `if not options.X` and not for this test."""
+    out, n = [], 0
+    for mn in modules:
+        m = repo.module(mn)
+        for q, fn in m.functions().items():
+            for c in ast.walk(fn):
+                if isinstance(c, ast.Compare) and len(c.ops) == 1 and isinstance(c.ops[0], (ast.Is, ast.IsNot)) and \
+                        isinstance(c.comparators[0], ast.Constant) and c.comparators[0].value in (True, False) and \
+                        isinstance(c.left, ast.Attribute):
+                    src = ast.unparse(c.left)
+                    if "options." in src or ".wrap." in src:
+                        n += 1
+                        out.append((mn, q, c, "`%s`: the value comes from the YAML file or the command line, where false can be "
+                                    "written 0: the identity test treats it as set" % ast.unparse(c)))
+    return out, n
+
+
+def validation_flag_never_set(repo, modules):
+    """`if node._flag is True: raise ...` where `_flag` is only ever assigned False / None anywhere in the program: the
+    validation can never fire (`void f(int a = 1, int b)` is accepted because nothing records that a default was
+    seen)."""
+    out, n = [], 0
+    assigned = {}
+    for mn in modules:
+        m = repo.module(mn)
+        for a in ast.walk(m.tree):
+            if isinstance(a, ast.Assign):
+                for t in a.targets:
+                    if isinstance(t, ast.Attribute) and t.attr.startswith("_"):
+                        assigned.setdefault(t.attr, []).append(a.value)
+            elif isinstance(a, ast.Call) and pyflow.is_name(a.func, "setattr") and len(a.args) == 3 and pyflow.const_str(a.args[1]):
+                assigned.setdefault(pyflow.const_str(a.args[1]), []).append(a.args[2])
+    for mn in modules:
+        m = repo.module(mn)
+        for q, fn in m.functions().items():
+            for i in ast.walk(fn):
+                if not (isinstance(i, ast.If) and any(isinstance(x, ast.Raise) for st in i.body for x in ast.walk(st))):
+                    continue
+                for x in ast.walk(i.test):
+                    if isinstance(x, ast.Attribute) and x.attr.startswith("_") and x.attr in assigned:
+                        vals = assigned[x.attr]
+                        n += 1
+                        if all(isinstance(v, ast.Constant) and v.value in (False, None) for v in vals):
+                            # the test asks for the flag to be set
+                            t = ast.unparse(i.test)
+                            if ("%s is True" % ast.unparse(x)) in t or t == ast.unparse(x) or (" and %s" % ast.unparse(x)) in t:
+                                out.append((mn, q, i, "`%s` guards a diagnostic and `.%s` is only ever assigned %s: the test can never "
+                                            "hold, the input it is meant to refuse is accepted"
+                                            % (t, x.attr, sorted(set(repr(v.value) for v in vals)))))
+    return out, n
+
+
+def snapshot_before_update(repo, modules):
+    """`copy.deepcopy(x.items)` is taken, and further down the same function the originals are still being completed
+    (`for e in x.items: e.attrs.update(...)` / `e.field = ...`): every copy misses what the user supplied there."""
+    out, n = [], 0
+    for mn in modules:
+        m = repo.module(mn)
+        for q, fn in m.functions().items():
+            for c in ast.walk(fn):
+                if not (isinstance(c, ast.Call) and ast.unparse(c.func) in ("copy.deepcopy", "copy.copy", "deepcopy")
+                        and c.args and isinstance(c.args[0], (ast.Attribute, ast.Name))):
+                    continue
+                src = ast.unparse(c.args[0])
+                if src in ("self",):
+                    continue
+                n += 1
+                for loop in ast.walk(fn):
+                    if not (isinstance(loop, ast.For) and ast.unparse(loop.iter) == src and loop.lineno > c.lineno
+                            and isinstance(loop.target, ast.Name)):
+                        continue
+                    # the copy and the loop are on one path: the loop is not inside the statement holding the copy
+                    var = loop.target.id
+                    for x in ast.walk(loop):
+                        hit = None
+                        if isinstance(x, ast.Call) and isinstance(x.func, ast.Attribute) and x.func.attr in ("update", "append", "extend", "setdefault"):
+                            base = x.func.value
+                            while isinstance(base, (ast.Attribute, ast.Subscript)):
+                                base = base.value
+                            if pyflow.is_name(base, var):
+                                hit = x
+                        elif isinstance(x, ast.Assign):
+                            for t in x.targets:
+                                base = t
+                                while isinstance(base, (ast.Attribute, ast.Subscript)):
+                                    base = base.value
+                                if base is not t and pyflow.is_name(base, var):
+                                    hit = x
+                        if hit is not None:
+                            # what is stored comes from somewhere (the user's groups): a constant that resets a field of
+                            # the originals after the copies took theirs is no loss for the copies
+                            val = hit.value if isinstance(hit, ast.Assign) else (hit.args[0] if hit.args else None)
+                            if val is None or not any(isinstance(y, (ast.Name, ast.Attribute, ast.Subscript)) for y in ast.walk(val)):
+                                hit = None
+                        if hit is not None:
+                            out.append((mn, q, hit, "`%s` was deep-copied at line %d and its elements are still being completed here: "
+                                        "the copies do not get `%s`" % (src, c.lineno, " ".join(ast.unparse(hit).split())[:60])))
+                            break
+    return out, n
